@@ -363,9 +363,9 @@ def gen_cold(ch):
             jobs.append(dict(kind="enc", text=ch.pick(ENC_POOL).replace("{u}", "13"), flags=dict(strict=ch.bool(70))))
     if ch.bool(40):
         # a stream of ever new bracket atoms (per-call isotope): bounded symbol caches keep evicting
-        jobs.append(dict(kind=ch.pick(["enc", "dec"]), text="", flags={}))
-        jobs[-1]["text"] = "[{v}CH3]C(=O)[{v}O-].[{v}Na+]" if jobs[-1]["kind"] == "enc" else "[{v}C][={v}N][{v}OH1][{v}S][{v}P]"
-        return dict(kind="cold", jobs=jobs, threads=ch.pick([4, 8]), rounds=ch.pick([60, 120]), rotate=ch.bool(50))
+        jobs = jobs[:1] + [dict(kind="enc", text="[{v}CH3]C(=O)[{v}O-].[{v}Na+].[{v}Fe+3]", flags={}),
+                           dict(kind="dec", text="[{v}C][={v}N][{v}OH1][{v}S][{v}P][{v}B]", flags={})]
+        return dict(kind="cold", jobs=jobs, threads=ch.pick([4, 8]), rounds=ch.pick([100, 200]), rotate=ch.bool(50))
     return dict(kind="cold", jobs=jobs, threads=ch.pick([4, 8, 8]), rounds=ch.pick([1, 1, 2]), rotate=ch.bool(50))
 
 
@@ -377,6 +377,6 @@ def gen_stress(ch):
 
 
 def shard(ctx):
-    ctx.drive("schedules", gen_case, ctx.n(300, 6000), max_bytes=700)
+    ctx.drive("schedules", gen_case, ctx.n(250, 6000), max_bytes=700)
     ctx.drive("stress", gen_stress, ctx.n(2, 20), max_bytes=64)
     ctx.drive("cold", gen_cold, ctx.n(8, 150), max_bytes=128)
